@@ -246,6 +246,14 @@ HEADER = ("(* GENERATED on every run by vlib/translate.py from the current sourc
 #            a listed `try: <operation> / except E: raise X` (or any statement with exactly two ways on): a boolean
 #            parameter decides; true: constructor_exit is appended and the path ends; false: constructor_go is appended
 #            and the body goes on (`try: .. = heappop(self._queue) / except IndexError: raise EmptySchedule()`)
+#   loop_again  constructor: a top-level `while True:` is translated as ONE iteration: `break` goes on with what follows
+#            the loop; reaching the end of the body appends the constructor and ends the path (the next iteration is
+#            the same body again, on the values the effects left behind)
+#   raising  [(constructor, [(exception class, parameter)])]   inside a `try` (translated statement by statement, no
+#            else / finally) a listed effect may raise: one boolean parameter per class, tested in the order given;
+#            true: the first handler catching that class is translated, then what follows the try statement
+#   switches [(python statement, [(parameter | None, constructor | None, "break" | "end" | "go")])]   a listed statement
+#            with several ways on (`try: if event.callbacks is not None: ..append..; break / except AttributeError: ..raise`)
 #   decorator "property" / "<name>.setter": the method is that property getter / setter
 #   aliases  [(python statement, name)]   `x = <object expression>` where x is afterwards only read through listed
 #            observations marked "needs:<name>" (`service_pkt = self.scheduler.packet_in_service`)
@@ -337,13 +345,29 @@ def _is_none_const(e):
     return isinstance(e, ast.Constant) and e.value is None
 
 
+class _EndTry(ast.stmt):
+    """marker: the body of a translated try statement ends here"""
+    _fields = ()
+
+    def __init__(self, outer):
+        super().__init__()
+        self.outer = outer
+
+
+class _EndLoop(ast.stmt):
+    """marker: the body of the translated `while True` ran to its end"""
+    _fields = ()
+
+
 class FnSpec:
     def __init__(self, path, cls, method, name, reads=(), effects=(), draws=(), ret="unit", ignore_calls=("print", "dprint"),
-                 select=None, stateops=(), bindings=(), inline=(), ignore_stmts=(), aliases=(), guards=(), decorator=None):
+                 select=None, stateops=(), bindings=(), inline=(), ignore_stmts=(), aliases=(), guards=(), decorator=None,
+                 raising=(), switches=(), loop_again=None):
         self.path, self.cls, self.method, self.name, self.select = path, cls, method, name, select
         self.stateops, self.bindings, self.inline = list(stateops), list(bindings), list(inline)
         self.ignore_stmts, self.aliases = list(ignore_stmts), list(aliases)
         self.guards, self.decorator = list(guards), decorator
+        self.raising, self.switches, self.loop_again = list(raising), list(switches), loop_again
         self.reads = [tuple(r) + (("",) if len(r) == 3 else ()) for r in reads]
         self.effects = [tuple(e) + (((),) if len(e) == 3 else ()) for e in effects]
         self.draws, self.ret, self.ignore_calls = list(draws), ret, set(ignore_calls)
@@ -368,6 +392,8 @@ class FxTr:
         self.ignored = [_parse_stmt(src) for src in spec.ignore_stmts]
         self.aliases = [(_parse_stmt(src), name) for (src, name) in spec.aliases]
         self.guards = [(_parse_stmt(src), param, c_exit, c_go) for (src, param, c_exit, c_go) in spec.guards]
+        self.switches = [(_parse_stmt(src), ways) for (src, ways) in spec.switches]
+        self.raising = {con: list(ways) for (con, ways) in spec.raising}
         self.stateops = [(_parse_stmt(src), field, param) for (src, field, param) in spec.stateops]
         self.bindings = [(_parse_stmt(src), local, param, ty) for (src, local, param, ty) in spec.bindings]
         self.counters = {}
@@ -376,12 +402,13 @@ class FxTr:
     #      stale (volatile params an effect may have changed), drawn (parameters already consumed)
     def env0(self):
         vs = {("self", a): V(f"({self.prefix}{a.lstrip('_')} s)", ty) for a, ty in self.state}
-        return {"vars": vs, "fx": (None, []), "known": {}, "stale": set(), "drawn": set(), "done": set()}
+        return {"vars": vs, "fx": (None, []), "known": {}, "stale": set(), "drawn": set(), "done": set(), "ctl": (None, None)}
 
     @staticmethod
     def copy(env):
         return {"vars": dict(env["vars"]), "fx": (env["fx"][0], list(env["fx"][1])), "known": dict(env["known"]),
-                "stale": set(env["stale"]), "drawn": set(env["drawn"]), "done": set(env["done"])}
+                "stale": set(env["stale"]), "drawn": set(env["drawn"]), "done": set(env["done"]),
+                "ctl": env.get("ctl", (None, None))}       # (active try handlers, what `break` continues with)
 
     def fresh(self, base):
         base = base.lstrip("_") or "v"               # self._level -> level1
@@ -712,7 +739,42 @@ class FxTr:
                 if self.spec.ret != "unit":              # listed `raise ...` ends the path
                     raise Unsupported("a listed `return <call>` / `raise` needs ret='unit' (the effect list is the result)")
                 return k(env2, None)
+            con = env2["fx"][1][-1].strip("()").split(" ")[0] if env2["fx"][1] else None
+            if con in self.raising and env2["ctl"][0] is not None:
+                return self.raise_split(con, rest, env2, k)
             return self.block(rest, env2, k)
+        for (pat, ways) in self.switches:                # a listed statement with several ways on, decided by observations
+            if _match(pat, s, {}):
+                return self.do_switch(ways, rest, env, k)
+        if isinstance(s, _EndTry):
+            env2 = self.copy(env)
+            env2["ctl"] = (s.outer, env["ctl"][1])
+            return self.block(rest, env2, k)
+        if isinstance(s, ast.Try):
+            if s.orelse or s.finalbody or not s.handlers:
+                raise Unsupported("try with else / finally")
+            env2 = self.copy(env)
+            env2["ctl"] = ((s.handlers, rest, env["ctl"][0]), env["ctl"][1])
+            return self.block(list(s.body) + [_EndTry(env["ctl"][0])] + rest, env2, k)
+        if isinstance(s, ast.While):
+            if not (self.spec.loop_again and isinstance(s.test, ast.Constant) and s.test.value is True and not s.orelse):
+                raise Unsupported("while (only `while True:` with loop_again declared: ONE iteration is translated)")
+            if env["ctl"][1] is not None:
+                raise Unsupported("nested while")
+            env2 = self.copy(env)
+            env2["ctl"] = (env["ctl"][0], (rest, k))
+            return self.block(list(s.body) + [_EndLoop()], env2, k)
+        if isinstance(s, _EndLoop):                      # the body ran to its end: the next iteration is the same body again
+            env2 = self.copy(env)
+            env2["fx"][1].append(self.spec.loop_again)
+            return self.final(env2, None)
+        if isinstance(s, ast.Break):
+            if env["ctl"][1] is None:
+                raise Unsupported("break outside the translated loop")
+            after, k_after = env["ctl"][1]
+            env2 = self.copy(env)
+            env2["ctl"] = (None, None)
+            return self.block(list(after), env2, k_after)
         if isinstance(s, ast.Pass):
             return self.block(rest, env, k)
         if isinstance(s, ast.Expr):
@@ -785,6 +847,59 @@ class FxTr:
         if isinstance(s, ast.If):
             return self.do_if(s, rest, env, k)
         raise Unsupported(f"statement {type(s).__name__}")
+
+    def raise_split(self, con, rest, env, k):
+        """the effect just appended may raise inside a try: one branch per listed exception class (its handler translated,
+        then what follows the try statement), else the body goes on"""
+        handlers, after_try, outer = env["ctl"][0]
+        saved = dict(self.counters)
+        out = ""
+        closing = ""
+        for (exc_class, param) in self.raising[con]:
+            h = None
+            for cand in handlers:
+                names = [cand.type.id] if isinstance(cand.type, ast.Name) else \
+                        [e.id for e in cand.type.elts] if isinstance(cand.type, ast.Tuple) else []
+                if exc_class in names or "BaseException" in names or (exc_class != "BaseException" and "Exception" in names and exc_class not in ("StopIteration_", )):
+                    h = cand
+                    break
+            if h is None:
+                raise Unsupported(f"{con} may raise {exc_class} and no handler of the enclosing try catches it")
+            env_h = self.copy(env)
+            env_h["ctl"] = (outer, env["ctl"][1])
+            env_h["done"].add("raised:" + exc_class)
+            self.counters = dict(saved)
+            arm = self.block(list(h.body) + list(after_try), env_h, k)
+            out += f"(if {param}\n then " + _ind(arm, 6) + "\n else "
+            closing += ")"
+        self.counters = dict(saved)
+        return out + _ind(self.block(rest, env, k), 6) + closing
+
+    def do_switch(self, ways, rest, env, k):
+        """ways = [(parameter, constructor, "break" | "end" | "go")], the last one may have parameter None (otherwise)"""
+        saved = dict(self.counters)
+        out, closing = "", ""
+        for (param, con, action) in ways:
+            env2 = self.copy(env)
+            if con:
+                env2["fx"][1].append(con)
+                env2["done"].add(con)
+            env2["stale"] |= set(self.volatile)
+            self.counters = dict(saved)
+            if action == "break":
+                arm = self.block([ast.Break()], env2, k)
+            elif action == "end":
+                arm = self.final(env2, None)
+            else:
+                arm = self.block(rest, env2, k)
+            if param is None:
+                out += _ind(arm, 6)
+                break
+            out += f"(if {param}\n then " + _ind(arm, 6) + "\n else "
+            closing += ")"
+        else:
+            raise Unsupported("a switch needs a last way without parameter")
+        return out + closing
 
     def inline_call(self, ent, args, rest, env, k):
         """`self.<name>(a, b)` for a method listed under inline (name, or (name, file, class) for a base class): its body
@@ -875,7 +990,8 @@ class FxTr:
             t2, env = self.hoist_draws(t, env)
             return self.do_if(ast.If(test=t2, body=s.body, orelse=s.orelse), rest, env, k)
         # an `if` with a return inside, or the last statement of the body: the rest is translated inside the branches
-        joinable = bool(rest) and not any(isinstance(n, (ast.Return, ast.Raise)) for n in ast.walk(s))
+        joinable = (bool(rest) and not any(isinstance(n, (ast.Return, ast.Raise, ast.Break)) for n in ast.walk(s))
+                    and env.get("ctl", (None, None))[0] is None)     # inside a translated try a branch may leave through a handler
         unk = self.option_params(s.test, env)
         if unk:
             p = unk[0]
@@ -1018,6 +1134,16 @@ def translate_fn(spec, state, record, prefix, effect_type):
         ps += f" ({p} : {COQ_TY[ty]})"
     for (_, p, _, _) in spec.guards:
         ps += f" ({p} : bool)"
+    seen = set()
+    for (_, ways) in spec.raising:
+        for (_, p) in ways:
+            if p not in seen:
+                seen.add(p)
+                ps += f" ({p} : bool)"
+    for (_, ways) in spec.switches:
+        for (p, _, _) in ways:
+            if p is not None:
+                ps += f" ({p} : bool)"
     rt = ([record] if state else []) + [f"list {effect_type}"] + (["bool"] if spec.ret == "bool" else [])
     src = " ".join(l.strip() for l in ast.unparse(f).splitlines()[:1])
     return (f"(* {spec.cls}.{spec.method}  ({src}) *)\n"
